@@ -242,3 +242,19 @@ M("c10-record-on-reject", "C10", "C10.BUDGET", (ACX, "        if self.has_trigge
 M("c10-wrong-text", "C10", "C10.SCOPE", (ACX, "success, result = self.trigger_context.try_evaluate_expression(self.location_action.condition)", "success, result = self.trigger_context.try_evaluate_expression(self.location_action.condition.lower())"))
 R("c10-refactor-cond-local", "C10", (ACX, "        if self.location_action.condition is None or len(self.location_action.condition.strip()) == 0:\n            return True\n        success, result = self.trigger_context.try_evaluate_expression(self.location_action.condition)",
                                      "        condition = self.location_action.condition\n        if condition is None or len(condition.strip()) == 0:\n            return True\n        success, result = self.trigger_context.try_evaluate_expression(condition)"))
+
+# ------------------------------------------------------------------ C16
+LOGA = "src/deep/processor/context/log_action.py"
+PYP = "src/deep/api/plugin/python.py"
+M("c16-swapped-ids", "C16", "C16.ROLE", (LOGA, "tracepoint_logger.log_tracepoint(self.log, self.action.id, ctx.id)", "tracepoint_logger.log_tracepoint(self.log, ctx.id, self.action.id)"))
+M("c16-impl-swapped-labels", "C16", "C16.ROLE", (PYP, "\" ctx=%s tracepoint=%s\" % (ctx_id, tp_id)", "\" ctx=%s tracepoint=%s\" % (tp_id, ctx_id)"))
+M("c16-no-prefix", "C16", "C16.PIPE", (LOGA, "log_msg = \"[deep] %s\" % FormatExtractor()", "log_msg = \"%s\" % FormatExtractor()"))
+M("c16-field-as-watch-source", "C16", "C16.PIPE", (LOGA, "ctx_self.eval_watch(field_name, WATCH_SOURCE_LOG)", "ctx_self.eval_watch(field_name, WATCH_SOURCE_WATCH)"), (LOGA, "from ...api.tracepoint.eventsnapshot import WATCH_SOURCE_LOG", "from ...api.tracepoint.eventsnapshot import WATCH_SOURCE_LOG, WATCH_SOURCE_WATCH"))
+M("c16-field-name-returned", "C16", "C16.PIPE", (LOGA, "                return log_str, field_name", "                return field_name, field_name"))
+M("c16-watch-not-recorded", "C16", "C16.PIPE", (LOGA, "                watch_results.append(watch)\n", ""))
+M("c16-snapshot-raw-template", "C16", "C16.SNAP", (SNAP, "            snapshot.log_msg = log\n", "            snapshot.log_msg = log_msg\n"))
+M("c16-snapshot-no-log-result", "C16", "C16.SNAP", (SNAP, "            self.trigger_context.attach_result(LogActionResult(context.location_action, log))\n", ""))
+M("c16-log-twice", "C16", "C16.ONCE", (LOGA, "        self.trigger_context.attach_result(LogActionResult(self.location_action, log))\n", "        self.trigger_context.attach_result(LogActionResult(self.location_action, log))\n        self.trigger_context.attach_result(LogActionResult(self.location_action, log))\n"))
+M("c16-raw-message-logged", "C16", "C16.ROLE", (LOGA, "        self.trigger_context.attach_result(LogActionResult(self.location_action, log))\n", "        self.trigger_context.attach_result(LogActionResult(self.location_action, log_msg))\n"))
+M("c16-logger-untested", "C16", "C16.ONCE", (LOGA, "        if tracepoint_logger:\n            tracepoint_logger.log_tracepoint(", "        if True:\n            tracepoint_logger.log_tracepoint("))
+R("c16-keyword-call", "C16", (LOGA, "tracepoint_logger.log_tracepoint(self.log, self.action.id, ctx.id)", "tracepoint_logger.log_tracepoint(self.log, ctx_id=ctx.id, tp_id=self.action.id)"))
